@@ -48,7 +48,7 @@ func C06(c *Ctx) int {
 		c.Infraf("%v", err)
 	}
 	// the gateway activated again within one instance (loop back from the winning branch)
-	loop := []*prog.Program{gen.EventGatewayLoop()}
+	loop := []*prog.Program{gen.EventGatewayLoop(), gen.EventGatewayLoopKinds("signal", "message"), gen.EventGatewayLoopKinds("message", "message")}
 	if err := c.TokenGameRound(fs, loop, RoundOpts{Label: "reentry", MaxSteps: 14, Simulate: sim / 2, MaxPerProg: 80,
 		Features: []string{"deliver"}, MaxDeliver: 5,
 		Job: JobOpts{Perturb: 9, HoldPoints: []string{"evgw.determined", "evgw.withdraw", "catch.event", "catch.consume", "flow.action"}}}); err != nil {
